@@ -86,7 +86,46 @@ namespace {
     east::Shape shape;
   };
 
-  void tagShape(verif::Case& c, const Formula& f) {
+  /*!
+   * Which known-finding classes the generator leaves out.  A class is only excluded while its key
+   * is in the known list handed over by the driver; the state is *recorded as draws* so that a
+   * replay (which never sees the known list) rebuilds exactly the same formula text.
+   */
+  struct Exclusions {
+    bool plusNeg = true, condLhsParen = true, condCste = true, condNested = true, cxxIntLit = true, cxxNames = true,
+         nestedCall = true, intExp = true;
+    static bool one(verif::Case& c, const char* key) {
+      if (c.mode() == verif::Case::GENERATE) {
+        const int v = verif::Global::get().known_keys.count(key) ? 1 : 0;
+        return c.integer(v, v, key) == 1;
+      }
+      return c.integer(0, 1, key) == 1;
+    }
+    static Exclusions draw(verif::Case& c) {
+      Exclusions e;
+      e.plusNeg = one(c, "C13.plus_unary_minus.crash");
+      e.condLhsParen = one(c, "C13.cond.lhs_paren.rejected");
+      e.condCste = one(c, "C13.cond.cste_first_branch.rejected");
+      e.condNested = one(c, "C13.cond.nested.rejected");
+      e.cxxIntLit = one(c, "C13.cxx.integer_literal");
+      e.cxxNames = one(c, "C13.cxx.nonstandard_function");
+      e.nestedCall = one(c, "C13.deps.nested_same_function");
+      e.intExp = one(c, "C13.deps.integer_exponent_parameter");
+      return e;
+    }
+    void apply(east::Generator& g) const {
+      g.nestedFullCond = !condNested;
+      g.allowNestedSameCall = !nestedCall;
+      g.allowIntegerParameterExponent = !intExp;
+    }
+    void apply(east::PrintOptions& po) const {
+      po.allowPlusNeg = !plusNeg;
+      po.allowCondLhsParen = !condLhsParen;
+      po.allowCondCste = !condCste;
+    }
+  };
+
+  void tagShape(verif::Case& c, const Formula& f, const Exclusions& ex = Exclusions()) {
     const auto& s = f.shape;
     c.nontrivial(s.depth >= 3 && s.opclasses.size() >= 2);
     if (s.depth >= 6) c.tag("depth>=6");
@@ -98,16 +137,18 @@ namespace {
       c.tag(std::string("op.") + kn[k]);
     }
     if (f.pinfo.unaryAfterMulDivPow > 0) c.tag("unary_minus.after_mul_div_pow");
-    if (f.pinfo.plusNeg > 0) c.tag("excluded_known.plus_unary_minus(parenthesised)");
-    if (f.pinfo.condLhsParen > 0) c.tag("excluded_known.cond_lhs_paren(mirrored)");
-    if (f.pinfo.condCste > 0) c.tag("excluded_known.cond_cste_first_branch(parenthesised)");
-    if (f.pinfo.condNested > 0) c.tag("BUG.cond_nested_generated");
+    if (f.pinfo.plusNeg > 0) c.tag(ex.plusNeg ? "excluded_known.plus_unary_minus(parenthesised)" : "class.plus_unary_minus");
+    if (f.pinfo.condLhsParen > 0) c.tag(ex.condLhsParen ? "excluded_known.cond_lhs_paren(mirrored)" : "class.cond_lhs_paren");
+    if (f.pinfo.condCste > 0) c.tag(ex.condCste ? "excluded_known.cond_cste_first_branch(parenthesised)" : "class.cond_cste_first_branch");
+    if (f.pinfo.condNested > 0) c.tag(ex.condNested ? "BUG.cond_nested_generated" : "class.cond_nested");
   }
 
   //! draws a formula + a point; `g` is returned for further use (environment)
   using Wrap = std::function<east::NP(east::Generator&, east::NP)>;
-  Formula drawFormula(verif::Case& c, east::Generator& g, const east::PrintOptions* popt = nullptr, const Wrap& wrap = {}) {
+  Formula drawFormula(verif::Case& c, east::Generator& g, const east::PrintOptions* popt = nullptr, const Wrap& wrap = {},
+                      const Exclusions& ex = Exclusions()) {
     Formula f;
+    ex.apply(g);
     g.drawPoint();
     const int depth = static_cast<int>(c.integer(2, g.o.maxDepth, "depth"));
     f.root = wrap ? wrap(g, g.gen(depth)) : g.genRoot(depth);
@@ -120,6 +161,7 @@ namespace {
       po.varnames = east::drawNames(c, g.o.nvars);
     }
     po.csts = g.o.csts;
+    ex.apply(po);
     f.names = po.varnames;
     east::Printer pr(po);
     const auto toks = pr.expr(*f.root);
@@ -215,9 +257,10 @@ VERIF_SUB(value) {
   east::GenOptions o;
   o.nvars = static_cast<int>(c.integer(1, 4, "nvars"));
   o.csts = &constants();
+  const auto ex = Exclusions::draw(c);
   east::Generator g(c, o);
-  const auto f = drawFormula(c, g);
-  tagShape(c, f);
+  const auto f = drawFormula(c, g, nullptr, {}, ex);
+  tagShape(c, f, ex);
   const auto ref = oracle(c, *f.root, envE(f.x));
   c.note(f.text);
   const bool explicitVars = c.boolean("explicit");
@@ -270,6 +313,7 @@ VERIF_SUB(value) {
 // ---------------------------------------------------------------- deps
 VERIF_SUB_W(deps, 0.5) {
   using namespace tfel::math::parser;
+  const auto ex = Exclusions::draw(c);
   // 1. the user function g_k(u,v) (binary), generated for arguments in [0.5,2]
   east::GenOptions o;
   o.csts = &constants();
@@ -324,10 +368,12 @@ VERIF_SUB_W(deps, 0.5) {
   o.ncalls = ncalls;
   o.maxDepth = 6;
   east::Generator g(c, o);
+  ex.apply(g);
   g.calls = calls;
   g.drawPoint();
   g.p = pv;
   east::PrintOptions po;
+  ex.apply(po);
   po.varnames = east::drawNames(c, o.nvars, reserved);
   po.parnames = parnames;
   po.callnames = callnames;
@@ -343,7 +389,7 @@ VERIF_SUB_W(deps, 0.5) {
     f.pinfo = pr.info;
     f.text = east::join(toks, static_cast<int>(c.pick(3, "ws")), c.bits64("wsseed"));
   }
-  tagShape(c, f);
+  tagShape(c, f, ex);
   if (g.avoidedNestedCalls > 0) c.tag("excluded_known.deps_nested_same_function(replaced by a leaf)");
   if (g.avoidedIntegerExponents > 0) c.tag("excluded_known.deps_integer_exponent_parameter(+0.25)");
   c.nontrivial(f.shape.depth >= 3 && (!f.shape.pars.empty() || f.shape.hasCall));
@@ -767,6 +813,8 @@ namespace {
     }
   }
   void cxxBatchImpl(verif::Case& c, const int nmax, const bool knownIntLit, const bool knownNames, const Wrap& wrap) {
+    // the dedicated sub-checks (wrap) always assert their class: no exclusion state drawn there
+    const auto ex = wrap ? Exclusions() : Exclusions::draw(c);
     const int n = static_cast<int>(c.integer(1, nmax, "batch"));
     CxxUnit u;
     std::vector<Formula> fs;
@@ -777,14 +825,14 @@ namespace {
       o.csts = &constants();
       o.maxNodes = 40;
       east::Generator g(c, o);
-      auto f = drawFormula(c, g, nullptr, wrap);
+      auto f = drawFormula(c, g, nullptr, wrap, ex);
       const bool intlit = east::cxxIntClass(*f.root);
       const bool names = hasNonStandardName(f.shape);
-      if (intlit && !knownIntLit) {
+      if (intlit && !knownIntLit && ex.cxxIntLit) {
         c.tag("excluded_known.cxx_integer_literal");
         continue;
       }
-      if (names && !knownNames) {
+      if (names && !knownNames && ex.cxxNames) {
         c.tag("excluded_known.cxx_nonstandard_function");
         continue;
       }
@@ -821,7 +869,7 @@ namespace {
       } catch (const std::exception& e) {
         c.check(false, "C13.cxx.exception", "getCxxFormula of '" + f.text + "': " + e.what());
       }
-      tagShape(c, f);
+      tagShape(c, f, ex);
       if (rename) c.tag("cxx.substitution_map");
       u.bodies.push_back(cxx);
       u.arity.push_back(static_cast<int>(f.names.size()));
